@@ -18,16 +18,25 @@ RULE = ("operation sequences on 1-3 sections of one output at terminal width 10:
         "belong to, which a section created afterwards starts with - are operations like the others (starting with no section at "
         "all; write_line of 1 / 11 / 20 cells and of two lines, overwrite, clear(), clear(1), section.indent(2)); random ones up to "
         "length 40 over everything (also 20 / 30-cell lines, 7 / 14 / 21, 80 / 160, lines of white space only, output.indent) with "
-        "sections created on the way, at widths {1, 7, 10, 80}, in ANSI and in plain mode; the emitted bytes (SGR sequences "
+        "sections created on the way, at widths {1, 7, 10, 80}, in ANSI and in plain mode; texts that end or start with a line break "
+        "('s\\n', '\\n' alone, 't\\n\\n', '\\nu', a tagged wrapped one), lines of one-cell characters beyond ASCII (10 x e-acute, a tagged "
+        "Greek / Cyrillic line, 11 x zhe) and clear(0) in the random part, 's\\n' in the plain alphabet; "
+        "the OUTPUT the sections are taken from: a buffer with a forced AnsiFormatter / with a PlainFormatter (all of the above), and - "
+        "all sequences of the plain alphabet to length 2 on 1-3 sections, a quarter of the random ones - a stream that says it supports "
+        "ANSI (a terminal) with an unforced AnsiFormatter, with a forced one, with a PlainFormatter (must degrade), and a stream "
+        "without ANSI support with an unforced AnsiFormatter (must degrade); the emitted bytes (SGR sequences "
         "included) are replayed on an independent terminal emulator that REJECTS what it does not model (ESC[2J is not 'erase "
         "below'); the screen must show the stacked contents AND every cell in the look (SGR pen) of its own line, the pen left at "
-        "default; a run in which a call raises is compared up to the failing call; the class of the theorems (good markup) is "
+        "default; the same bytes replayed on a terminal that already shows three rows must leave those rows alone (a cursor movement "
+        "beyond the first section's first row is invisible on an empty terminal); a run in which a call raises is compared up to the failing call; the class of the theorems (good markup) is "
         "decided on both sides and compared; outside it the stack claim is dropped only where a partial clear really cut a tag that "
         "spans a line break; non-trivial = touches >= 2 sections or a wrapped line or a tag or an indentation; distinct by op "
         "sequence and width")
 TRUSTED = ["Base/Term.v as the terminal (infinite height, deferred auto-wrap, LF implies CR, an SGR sequence occupies no cell); "
            "tabs and wide characters in section texts are outside the model (a character is one cell); pastel is modelled by "
-           "Model/Markup.v (tied by C11 and by this run)"]
+           "Model/Markup.v (tied by C11 and by this run)",
+           "which output is decorated (Output.supports_ansi(): the stream supports ANSI and the formatter does not disable it, or the "
+           "formatter forces it) is a four-row table of the harness (OUTS); the model is told the expected answer"]
 ASSUMPTIONS = ["screen_is_stack: every line of a written text is good markup (no ESC / tab, no backslash at its end or right before a "
                "tag, the formatter accepts it and leaves the style stack empty: no tag spans a line break); any indentation"]
 
@@ -60,7 +69,9 @@ TEXTS = ["a", "b" * 9, "c" * 10, "d" * 11, "e" * 23, "f\n" + "g" * 12,
          "\n",                                # 33 a line break alone: two empty lines
          "t\n\n",                             # 34
          "\nu",                               # 35 a text that starts with a line break
-         "<b>v</b>\n" + "w" * 11 + "\n"]      # 36 tagged, wrapped, ending with a line break
+         "<b>v</b>\n" + "w" * 11 + "\n",      # 36 tagged, wrapped, ending with a line break
+         "\u00e9" * 10,                        # 37 characters beyond ASCII (one cell each): exactly one row at width 10 - two if bytes were counted
+         "<info>\u03bb\u0436\u00fc</info> \u00e7a\n" + "\u0436" * 11]   # 38 tagged; a second line that wraps
 PLAIN_T = range(6)
 # the output the sections are taken from (case field "out"; absent = a buffer with a forced AnsiFormatter (ansi 1) / a PlainFormatter
 # (ansi 0), as in every case before).  'ansi' in a case stays the answer expected of Output.supports_ansi(): the model's flag
